@@ -460,7 +460,25 @@ func (g *gctx) elementHole() (vals.V, string) {
 	rec := func(title string) vals.V {
 		return vals.V{K: "rec", M: map[string]vals.V{"Title": e(title), "Name": e("n")}}
 	}
-	switch rapid.IntRange(0, 6).Draw(g.t, "ek") {
+	switch rapid.IntRange(0, 7).Draw(g.t, "ek") {
+	case 7:
+		// a list longer than one byte / small buffer can count, read near its boundaries (round 16):
+		// every element is distinct, so an index that wraps or is cut short shows another row
+		n := rapid.SampledFrom([]int{255, 256, 257, 300, 1000}).Draw(g.t, "longn")
+		l := make([]vals.V, n)
+		for i := range l {
+			l[i] = e("row " + strconv.Itoa(i) + " <&> of " + strconv.Itoa(n))
+		}
+		idx := []int{n - 1, n - 2, 254, 99}
+		if n > 256 {
+			idx = append(idx, 255, 256, n-1, n-1)
+		}
+		i := rapid.SampledFrom(idx).Draw(g.t, "longi")
+		suffix := "[" + strconv.Itoa(i) + "]"
+		if rapid.Bool().Draw(g.t, "longdot") {
+			suffix = "." + strconv.Itoa(i)
+		}
+		return vals.V{K: "[]err", L: l}, suffix
 	case 5:
 		v := rec("War & Peace <1869>")
 		v.K = rapid.SampledFrom([]string{"rec", "*rec"}).Draw(g.t, "reck")
